@@ -28,6 +28,8 @@ def _violations(prop, repo_root, overlay):
     repo = Repo(repo_root, overlay)
     run = Run(prop, "quick", write=False, known={"findings": [], "fixed": []})
     mod.run(repo, run, "quick")
+    if run.deferred_errors and not run.violations:
+        raise AnalysisError("; ".join(run.deferred_errors))
     return set((v["rule"], v["construct"]) for v in run.violations), run
 
 
